@@ -248,17 +248,69 @@ func errDisposition(ci ssa.CallInstruction) errUse {
 	if errV == nil {
 		return errDropped
 	}
-	n := 0
-	for _, r := range *errV.Referrers() {
-		if _, ok := r.(*ssa.DebugRef); ok {
-			continue
-		}
-		n++
-	}
-	if n == 0 {
+	if !valueIsUsed(errV, map[ssa.Value]bool{}) {
 		return errDropped
 	}
 	return errPropagated
+}
+
+// valueIsUsed: does the value reach anything other than phis that nobody reads?
+// (`err = f()` merged into a variable that is never tested again is a dropped error.)
+func valueIsUsed(v ssa.Value, seen map[ssa.Value]bool) bool {
+	if seen[v] {
+		return false
+	}
+	seen[v] = true
+	refs := v.Referrers()
+	if refs == nil {
+		return true
+	}
+	for _, r := range *refs {
+		switch x := r.(type) {
+		case *ssa.DebugRef:
+			continue
+		case *ssa.Phi:
+			if valueIsUsed(x, seen) {
+				return true
+			}
+		case *ssa.Store:
+			// a store into a local that is read somewhere
+			if a, ok := x.Addr.(*ssa.Alloc); ok && x.Val == v {
+				for _, ar := range *a.Referrers() {
+					if l, ok := ar.(*ssa.UnOp); ok && l.Op == token.MUL && valueIsUsed(l, seen) {
+						return true
+					}
+				}
+				continue
+			}
+			return true
+		default:
+			return true
+		}
+	}
+	return false
+}
+
+// errTestGuard matches the If edges on which the error value (or a variable it was
+// merged into through phis) is known non-nil.
+func errNonNilGuard(errV ssa.Value) Guard {
+	return Guard{Match: func(f Fact) bool {
+		if f.Kind != NonNil {
+			return false
+		}
+		v := stripConv(f.V)
+		if v == errV {
+			return true
+		}
+		if ph, ok := v.(*ssa.Phi); ok {
+			for _, lf := range phiLeaves(ph, nil, map[*ssa.Phi]bool{}) {
+				if stripConv(lf.V) == errV {
+					return true
+				}
+			}
+		}
+		return false
+	}}
 }
 
 // errValueOf returns the SSA value of the error result of a call (nil if dropped).
